@@ -10,6 +10,11 @@ from ..log import logger
 COMMAND_PARSING, SPACE_PARSING = list(range(2))
 
 
+def isspace(ch, _blanks=frozenset(" \t\n\r\v\f")):
+    """bash separates tokens at ASCII blanks only; str.isspace() also accepts NBSP, U+3000, ..."""
+    return ch in _blanks
+
+
 def run(
     out,
     file_buff,
@@ -61,7 +66,6 @@ FUNC_LEN = len("function")
 
 def is_function(buff, pos):
     """:return: start, end, pos or None, None, None tuple."""
-    isspace = str.isspace
     try:
         while buff[pos] in " \t":
             pos += 1
@@ -132,7 +136,6 @@ def process_scope(
 ):
     window_start = pos
     window_end = None
-    isspace = str.isspace
     end = len(buff)
     while pos < end and buff[pos] != endchar:
         # Wander forward to the next non space.
@@ -258,7 +261,6 @@ def walk_here_statement(buff, pos):
             "correction, it's a third level here. Handing back to command parsing"
         )
         return pos + 1
-    isspace = str.isspace
     end = len(buff)
     while pos < end and (isspace(buff[pos]) or buff[pos] == "-"):
         pos += 1
@@ -293,7 +295,7 @@ def walk_here_statement(buff, pos):
 
 
 def walk_statement_pound(buff, pos, endchar=None):
-    if pos and not buff[pos - 1].isspace():
+    if pos and not isspace(buff[pos - 1]):
         return pos + 1
     if endchar == "`":
         i = buff.find("\n", pos)
@@ -315,7 +317,6 @@ def walk_statement_pound(buff, pos, endchar=None):
 
 def walk_command_complex(buff, pos, endchar, interpret_level):
     start = pos
-    isspace = str.isspace
     end = len(buff)
     while pos < end:
         ch = buff[pos]
@@ -407,7 +408,7 @@ def walk_dollar_expansion(buff, pos, end, endchar, disable_quote=False):
             # short circuit it.
             return pos + 1
         while pos < end and buff[pos] != endchar:
-            if buff[pos].isspace():
+            if isspace(buff[pos]):
                 return pos
             if buff[pos] == "$":
                 # shouldn't this be passing disable_quote ?
